@@ -384,7 +384,7 @@ class CallMixin:
                     return True
                 if v.ty == 'obj':
                     return 'builtins.list' in self.repo.mro(v.a['cls'])
-                return False if v.ty != 'E' else None
+                return False
             if n == 'tuple':
                 return v.ty == 'tuple' or (v.ty == 'const' and isinstance(v.a['py'], tuple))
             if n == 'bool':
@@ -442,6 +442,8 @@ class CallMixin:
             raise Unsupported('mutation of a temporary list')
         if recv.ty == 'seq':
             el = recv.a['elem']
+            if el == 'E' and name == 'append' and args[0].ty == 'obj':
+                args = [self.coerce(args[0], 'E', st)]
             if name == 'append':
                 xz = elem_z(args[0], el)
                 new = Concat(recv.z, Unit(xz))
@@ -449,6 +451,8 @@ class CallMixin:
                 for h in self.reg.attr_hooks:
                     h(self, 'appended', (recv.z, xz, new, el), st)
                 return [('val', st, VNone)]
+            if name == 'extend' and args[0].ty == 'comp':
+                args = [self.map_identity(args[0], st)]
             if name == 'extend':
                 v = args[0]
                 if v.ty == 'seq' and v.a['elem'] == el:
@@ -491,12 +495,45 @@ class CallMixin:
                 return r
         raise Unsupported('list method %s on %s' % (name, recv.ty))
 
+    def map_identity(self, comp, st):
+        """`f(x) for x in xs` over a symbolic sequence where f leaves every element unchanged: proved for an arbitrary
+        element (skolem index) as an obligation, then the mapped sequence is xs itself"""
+        xs = comp.a['iter']
+        if xs.ty in ('list', 'tuple', 'const'):
+            xs2 = self._as_seq(xs, 'E')
+            if xs2 is None:
+                raise Unsupported('comprehension over ' + xs.ty)
+            xs = xs2
+        if xs.ty != 'seq':
+            raise Unsupported('comprehension over ' + xs.ty)
+        k = fresh('map_k', IntSort())
+        probe = st.fork()
+        probe.assume(And(0 <= k, k < Length(xs.z)))
+        self.touch(probe, k)
+        x = elem_val(xs.z[k], xs.a['elem'])
+        for h in self.reg.attr_hooks:
+            h(self, 'seq-item', (xs, k, x), probe)
+        saved = probe.env
+        probe.env = dict(probe.env)
+        probe.env[comp.a['var']] = x
+        outs = self.ev(comp.a['elt'], probe)
+        for o in outs:
+            if o[0] == 'raise':
+                self.oblige('%s#comprehension-element-cannot-raise[%s]' % (self.cur.key, o[2]), o[1], BoolVal(False), 'A')
+            else:
+                v = o[2]
+                same = v.z == x.z if v.ty == x.ty and v.z is not None else BoolVal(False)
+                self.oblige('%s#comprehension-leaves-elements-unchanged' % self.cur.key, o[1], same, 'A')
+        return xs
+
     def seq_method(self, recv, name, args, st, store):
         """list.insert / index / remove / pop / reverse / clear on a symbolic sequence (python semantics;
         `==` on expressions is textual, as TexExpr.__eq__ is)"""
         from .spec import QBool
         from .sorts import norm_index, E as ESort
         el = recv.a['elem']
+        if el == 'E':       # an object under construction stored into a list of expressions is published
+            args = [self.coerce(a, 'E', st) if a.ty == 'obj' else a for a in args]
         S = recv.z
         n = Length(S)
 
